@@ -3,8 +3,9 @@ use std::borrow::Cow;
 use std::ops::{Deref, DerefMut};
 
 use vcoll::sync::{Arc, AtomicCell, RwLock};
-use vcoll::vvec::VVec as Vec;
-use vcoll::BTreeMap;
+// REAL std collections for this caller unit: keyspace names (the only map keys) and all counts are
+// concrete per harness, so CBMC executes the std code by constant propagation.
+use std::collections::BTreeMap;
 
 use crate::env::*;
 
@@ -43,7 +44,7 @@ where
             let name: Cow<'static, str> = name.into();
             unsafe {
                 if LOADED.is_none() {
-                    LOADED = Some(Vec::new());
+                    LOADED = Some(vcoll::vvec::VVec::new());
                 }
                 LOADED.as_mut().unwrap().push(Loaded { name: name.vkey(), state });
             }
